@@ -148,6 +148,9 @@ def _make_authenticator():
         if buf[:3] != TOKEN[:3]:
             raise AuthenticationError("wrong token")
         # the last five bytes name the client: they become the connection's credentials
+        if os.environ.get("RV_AUTH_REWRAP") == "1":
+            # like ssl.wrap_socket: the authenticated socket is another object than the accepted one
+            sock = socket.socket(fileno=sock.detach())
         return sock, buf[3:].decode("latin1")
     return token_authenticator
 
@@ -475,9 +478,10 @@ class ChildDied(ChildError):
 
 class ServerProc(object):
     def __init__(self, kind, auth=False, unix=False, start_watchdog=60, cmd_watchdog=60):
+        """auth: False | True | "rewrap" (the authenticator returns a new socket object for the same descriptor)"""
         if kind not in KINDS:
             raise ValueError(kind)
-        self.kind, self.auth, self.unix = kind, auth, unix
+        self.kind, self.auth, self.unix = kind, bool(auth), unix
         self.cmd_watchdog = cmd_watchdog
         self.scratch = tempfile.mkdtemp(prefix="rv_rn_", dir="/tmp")
         self.path = os.path.join(self.scratch, "s.sock") if unix else None
@@ -488,6 +492,7 @@ class ServerProc(object):
         env = dict(os.environ)
         env["PYTHONPATH"] = repo_dir() + os.pathsep + LIB
         env["PYTHONDONTWRITEBYTECODE"] = "1"
+        env["RV_AUTH_REWRAP"] = "1" if auth == "rewrap" else "0"
         cmd = [sys.executable, "-u", os.path.abspath(__file__).replace(".pyc", ".py"), "serve", kind, "--scratch", self.scratch]
         if auth:
             cmd.append("--auth")
